@@ -134,9 +134,13 @@ fn transplants(g2: bool, k: Kind, b: &[u8]) -> Vec<Vec<u8>> {
     let mut v = Vec::new();
     let n = fmt_len(g2, k);
     let off = if k == Kind::Raw { 0 } else { 1 };
+    // base points: k*G, and for G1 also real curve points with a SMALL x (2^64-j, j, 2^128-j), obtained from the
+    // library's own decompression: x + q still fits 32 bytes and shares q's top limb(s), which is where a faulty
+    // range comparison shows
+    let mut bases: Vec<Vec<u8>> = Vec::new();
     for m in 1u8..=48 {
         let s = sm9_core::Fr::from_slice(&[m]).unwrap();
-        let mut e: Vec<u8> = if !g2 {
+        let e: Vec<u8> = if !g2 {
             let p = G1::one() * s;
             match k {
                 Kind::Raw => p.to_slice().to_vec(),
@@ -151,6 +155,39 @@ fn transplants(g2: bool, k: Kind, b: &[u8]) -> Vec<Vec<u8>> {
                 Kind::Cmp => p.to_compressed().to_vec(),
             }
         };
+        bases.push(e);
+    }
+    if !g2 {
+        for j in 1u64..=40 {
+            for x0 in [[0u64.wrapping_sub(j), 0, 0, 0], [j, 0, 0, 0], [0u64.wrapping_sub(j), u64::MAX, 0, 0]] {
+                let mut c = vec![2u8];
+                c.extend_from_slice(&be_bytes32(&x0));
+                if let Ok(p) = G1::from_compressed(&c) {
+                    for p in [p, -p] {
+                        bases.push(match k {
+                            Kind::Raw => p.to_slice().to_vec(),
+                            Kind::Unc => p.to_uncompressed().to_vec(),
+                            Kind::Cmp => p.to_compressed().to_vec(),
+                        });
+                    }
+                }
+            }
+        }
+    }
+    for mut e in bases {
+        // independent of the counterexample: the valid encoding itself and, per coordinate, its non-canonical alias
+        // coordinate + q (when it still fits 32 bytes) - the alias must be rejected
+        v.push(e.clone());
+        let mut i = off;
+        while i + 32 <= n {
+            let s5 = add5(&be_value4(&e[i..i + 32]), &Q);
+            if s5[4] == 0 {
+                let mut a = e.clone();
+                a[i..i + 32].copy_from_slice(&be_bytes32(&[s5[0], s5[1], s5[2], s5[3]]));
+                v.push(a);
+            }
+            i += 32;
+        }
         if b.len() == n {
             if off == 1 {
                 e[0] = b[0];
